@@ -281,6 +281,8 @@ def disconnect_prog():
         e = _emit_of(st, "self._event_handler")
         if s == "self._is_connected = False":
             out.append(".setConnFalse")
+        elif s == "self._disconnected = True":
+            continue        # the flag `_connect` reads right after its endpoint creation (see connect_paths: .checkAlive)
         elif e:
             out.append(f".raiseEvent .{e}")
         elif s == "self.struct.reset()":
@@ -390,6 +392,9 @@ def connect_paths():
             steps.append(".setConnected")
         elif _u(st) == "self._protocol = _protocol":
             steps.append(".openProtocol")
+        elif isinstance(st, ast.If) and _u(st.test) == "self._disconnected" and not st.orelse and not _events_in(st) \
+                and isinstance(st.body[-1], ast.Return) and st.body[-1].value is None:
+            steps.append(".checkAlive")
         elif isinstance(st, ast.If) and _events_in(st):
             if st.orelse:
                 raise Untranslatable("_connect: event under if/else")
